@@ -235,26 +235,32 @@ Section load.
   Definition extra_args (known : list ustring) (kw : list (ustring * value)) : list (value * value) :=
     map (fun kv => (VStr (fst kv), snd kv)) (filter (fun kv => negb (umem (fst kv) known)) kw).
 
-  (* yatiml.constructors.Constructor.__call__, given the constructed mapping *)
-  Definition build_object (k : cls) (params : list param) (extra : bool) (mapping : list (value * value)) : result value :=
+  (* yatiml.constructors.Constructor.__call__, given the constructed mapping: the checks that precede the
+     call of __init__, yielding the keyword arguments it will be called with *)
+  Definition init_args (params : list param) (extra : bool) (mapping : list (value * value))
+    : option (list (ustring * value)) :=
     let known := map p_name params in
     let kw := kwargs_of mapping in
     (* __check_no_missing_attributes *)
     if negb (forallb (fun p => match uassoc (p_name p) kw with
                                | None => negb (p_required p)
                                | Some v => type_matches v (p_ty p) end) params)
-    then Err ERecognition
+    then None
     (* __type_check_attributes: no extraneous keys unless _yatiml_extra; 'self' passes here and fails in
        __init__; a document key '_yatiml_extra' fails its OrderedDict annotation *)
     else if negb extra && negb (forallb (fun kv => umem (fst kv) known || ueqb (fst kv) self_name) kw)
-    then Err ERecognition
+    then None
     else if existsb (fun kv => ueqb (fst kv) self_name || ueqb (fst kv) extra_name) kw
-    then Err ERecognition
+    then None
     else
       (* keyword arguments, listed in signature order (keyword passing is order-free) *)
-      let args := if extra then main_args params kw ++ [(extra_name, VDict (extra_args known kw))]
-                  else main_args params kw in
-      if c_init_ok k args then Ok (VObj (c_name k) args) else Err ERecognition.
+      Some (if extra then main_args params kw ++ [(extra_name, VDict (extra_args known kw))]
+            else main_args params kw).
+  Definition build_object (k : cls) (params : list param) (extra : bool) (mapping : list (value * value)) : result value :=
+    match init_args params extra mapping with
+    | None => Err ERecognition
+    | Some args => if c_init_ok k args then Ok (VObj (c_name k) args) else Err ERecognition
+    end.
 
   Fixpoint construct (fuel : nat) (n : node) {struct fuel} : result value :=
     match fuel with
